@@ -534,7 +534,7 @@ impl Engine for CompSim {
     }
     fn runs(&self, tier: Tier) -> u64 {
         match tier {
-            Tier::Quick => 40_000,
+            Tier::Quick => 300_000,
             Tier::Thorough => 12_000_000,
         }
     }
